@@ -100,7 +100,7 @@ func tdxListed(t *table, ram int) [][]byte {
 
 func main() {
 	r := mc.NewRun("C02")
-	r.Rule("E5 full product: 16 endorsed tables (every subset of VMSA counts {1,2,4} x SVSM absent/present; every subset of TDX rows {(0,no),(16,no),(16,early),(32,no)}) x report measurements (each universe value, one-bit neighbours first/last bit, 47- and 49-byte variants, zero, unrelated) x requested counts {0,1,2,3,4,8} / RAM {0,16,32,64} x expected digests x entry points; non-trivial = distinct (entry point, table, measurement, config) where the validator accepted, or a distinct rejection class")
+	r.Rule("E5 full product: 16 endorsed tables (every subset of VMSA counts {1,2,4} x SVSM absent/present; every subset of TDX rows {(0,no),(16,no),(16,early),(32,no)}) x report measurements (each universe value, one-bit neighbours first/last bit, 47- and 49-byte variants, zero, unrelated) x requested counts {0,1,2,3,4,8,255,256,65535,65536,2^31,2^32-2,2^32-1} / RAM {0,16,32,64} x expected digests x entry points; non-trivial = distinct (entry point, table, measurement, config) where the validator accepted, or a distinct rejection class")
 	r.Assume("Listed(1 VMSA) is read loosely as {Measurements[1]} U {SVSM measurement}")
 	auth, err := fx.NewAuthority(fx.T0, "c02")
 	if err != nil {
@@ -147,7 +147,8 @@ func main() {
 		tdxCands = append(tdxCands, n[0], n[1], n[2])
 	}
 	tdxCands = append(tdxCands, cand{"zero48", make([]byte, 48)}, cand{"unrelated", att.Meas(0x78)})
-	reqCounts := []uint32{0, 1, 2, 3, 4, 8}
+	// small counts, and counts of unusual magnitude (no endorsement here lists any of the latter)
+	reqCounts := []uint32{0, 1, 2, 3, 4, 8, 255, 256, 65535, 65536, 1 << 31, 1<<32 - 2, 1<<32 - 1}
 	rams := []int{0, 16, 32, 64}
 	if r.Thorough() {
 		reqCounts = append(reqCounts, 5, 16, 240, 0xffffffff)
